@@ -1,4 +1,4 @@
-(* value/range.rs (ValueRange over i64, debug-build overflow = panic),
+(* value/range.rs (ValueRange: i64 bounds held in i128, debug-build overflow = panic),
    value/number.rs into_integer and sass/srcrange.rs SrcRange::evaluate. *)
 From Coq Require Import String List ZArith Bool.
 From RV Require Import Base.FExpr Base.F64 Gen.Units Model.Units Model.Numeric.
@@ -6,16 +6,17 @@ Import ListNotations.
 Local Open Scope Z_scope.
 
 Definition i64_ok (z : Z) : bool := (i64_min <=? z) && (z <=? i64_max).
+Definition i128_ok (z : Z) : bool := (- 2 ^ 127 <=? z) && (z <=? 2 ^ 127 - 1).
+(* `x as i64` for an i128: two's complement wrap *)
+Definition as_i64 (z : Z) : Z := (z + 2 ^ 63) mod 2 ^ 64 - 2 ^ 63.
 
-(* ---- ValueRange ---- *)
+(* ---- ValueRange (after fix 48adbab: from / to / step are i128) ---- *)
 Record vrange := mkVR { vr_from : Z; vr_to : Z; vr_step : Z }.
 
-(* ValueRange::new; None = `to + step` overflowed (panic: overflow checks are on) *)
-Definition vr_new (from to : Z) (inclusive : bool) : option vrange :=
+(* ValueRange::new: `i128::from(to) + step` cannot overflow for an i64 `to` *)
+Definition vr_new (from to : Z) (inclusive : bool) : vrange :=
   let step := if to >=? from then 1 else -1 in
-  if inclusive then
-    (if i64_ok (to + step) then Some (mkVR from (to + step) step) else None)
-  else Some (mkVR from to step).
+  mkVR from (if inclusive then to + step else to) step.
 
 (* from.partial_cmp(&to) == 0.partial_cmp(&step) *)
 Definition vr_continue (r : vrange) : bool :=
@@ -27,12 +28,13 @@ Definition vr_continue (r : vrange) : bool :=
 Inductive next_res : Type :=
 | NYield (v : Z) (r : vrange)
 | NStop
-| NPanic.                 (* `self.from += self.step` overflowed *)
+| NPanic.                 (* `self.from += self.step` overflowed i128 (overflow checks are on) *)
 
+(* yields `self.from as i64` *)
 Definition vr_next (r : vrange) : next_res :=
   if vr_continue r then
-    (if i64_ok (vr_from r + vr_step r)
-     then NYield (vr_from r) (mkVR (vr_from r + vr_step r) (vr_to r) (vr_step r))
+    (if i128_ok (vr_from r + vr_step r)
+     then NYield (as_i64 (vr_from r)) (mkVR (vr_from r + vr_step r) (vr_to r) (vr_step r))
      else NPanic)
   else NStop.
 
@@ -58,10 +60,7 @@ Fixpoint vr_collect (fuel : nat) (r : vrange) : range_res :=
   end.
 
 Definition range_items (fuel : nat) (from to : Z) (inclusive : bool) : range_res :=
-  match vr_new from to inclusive with
-  | Some r => vr_collect fuel r
-  | None => RPanic
-  end.
+  vr_collect fuel (vr_new from to inclusive).
 
 (* fuel that always suffices *)
 Definition range_fuel (from to : Z) : nat := Z.to_nat (Z.abs (to - from)) + 3.
